@@ -92,6 +92,7 @@ class Check:
         self.level = level
         self.t0 = time.time()
         self.violations = []      # dict(check, clause, fp, detail, case, driver)
+        self.growth_findings = []  # rejections of parts outside the listed property (never a violation of it)
         self.known_hits = []
         self.states = 0
         self.transitions = 0
@@ -123,8 +124,10 @@ class Check:
 
     # ---- V / G -----------------------------------------------------------
     def validate(self, name, module, cfg, records, *, driver=None, jobs=8, parallel=True,
-                 sample_n=2, **kw):
-        """Validate records with a trace spec; merge verdicts."""
+                 sample_n=2, growth=False, **kw):
+        """Validate records with a trace spec; merge verdicts.
+        growth=True: the part covers behaviour OUTSIDE the listed property (specification growth).  Its rejections are
+        reported as 'OUTSIDE-PROPERTY' notes in the output and the evidence, never as a violation of this property."""
         if not records:
             raise MachineryError(f'{name}: no records')
         if parallel and len(records) > 1:
@@ -141,7 +144,10 @@ class Check:
             if v.get('nt'):
                 self.nt_keys.add(f"{name}:{rec.get('key', rec['id'])}")
             failed = v.get('failed', [])
-            if failed:
+            if failed and growth:
+                nfail += 1
+                self.growth_findings.append(dict(check=name, clause=failed[0], fp=rec.get('fp', ''), kind=rec.get('kind', '')))
+            elif failed:
                 nfail += 1
                 self.violations.append(dict(check=name, clause=failed[0], clauses=failed,
                                             fp=rec.get('fp', ''), case=rec.get('case'),
@@ -152,7 +158,8 @@ class Check:
         for rec in records[:sample_n]:
             self.samples.append(_shorten(dict(part=name, record=rec)))
         self.parts.append(dict(part=name, kind='V', module=module, records=len(records),
-                               rejected=nfail, tlc_states=res.states, wall_s=round(res.wall, 1)))
+                               rejected=nfail, tlc_states=res.states, wall_s=round(res.wall, 1),
+                               **({'outside_property': True} if growth else {})))
         return verdicts
 
     def add_violation(self, check, clause, fp, detail, case=None, driver=None):
@@ -209,6 +216,13 @@ class Check:
                           default=str)
                 lines.append(f'VIOLATION property={self.pid} replay={path}')
                 print(f'  [{c}] clause={cl} fp={fp} count={len(vs)} detail={str(vs[0].get("detail"))[:200]}')
+        gg = {}
+        for g in self.growth_findings:
+            gg.setdefault((g['check'], g['clause'], g['fp']), 0)
+            gg[(g['check'], g['clause'], g['fp'])] += 1
+        for (c, cl, fp), n in sorted(gg.items()):
+            print(f'OUTSIDE-PROPERTY: part={c} clause={cl} fp={fp} count={n} (specification growth beyond {self.pid}; '
+                  f'not a violation of {self.pid})')
         total_skips = sum(self.skips.values())
         cov = dict(
             evaluations=int(self.evaluations),
@@ -222,6 +236,7 @@ class Check:
             skipped=self.skips,
             parts=self.parts,
             known_findings_seen=seen_known,
+            outside_property_rejections=[dict(part=c, clause=cl, fp=fp, count=n) for (c, cl, fp), n in sorted(gg.items())],
             trusted_base=['TLC 1.8 + CommunityModules (Json, SequencesExt)', 'harness/enc.py encoders',
                           'harness/tlaparse.py', 'Python math/mpmath scalar kernels'],
         )
